@@ -596,7 +596,7 @@ main(void)
             }
             free(xs); free(vb.s); lyd_free_all(t); free(d);
         } else if (!strcmp(op, "xview") && r.ntok == 6 && ctx) {
-            /* xview <xml|json> <data-hex> <opaq 0|1>: parse (strict + validate, or LYD_PARSE_OPAQ | LYD_PARSE_ONLY); for each of the five
+            /* xview <xml|json> <data-hex> <0|1|2>: parse (0, 2: strict + validate; 1: LYD_PARSE_OPAQ | LYD_PARSE_ONLY; 2: then metadata on every default node); for each of the five
              * with-defaults modes the shrunk XML output and the printer's view under these options -> ok (<xml-hex> <view-hex>){5} */
             LYD_FORMAT fin = !strcmp(r.tok[3], "xml") ? LYD_XML : LYD_JSON;
             char *d = vp_unhex(r.tok[4], NULL);
@@ -604,10 +604,24 @@ main(void)
             struct lyd_node *t = NULL;
 
             ly_err_clean(ctx, NULL);
-            if (opq) {
+            if (opq == 1) {
                 bad = lyd_parse_data_mem(ctx, d, fin, LYD_PARSE_OPAQ | LYD_PARSE_ONLY, 0, &t) ? 1 : 0;
             } else {
                 bad = (lyd_parse_data_mem(ctx, d, fin, LYD_PARSE_STRICT, LYD_VALIDATE_PRESENT, &t) || lyd_validate_all(&t, ctx, 0, NULL)) ? 1 : 0;
+            }
+            if (!bad && (opq == 2)) {
+                /* metadata on every implicit default terminal node (only the API can put it there): annotation rtx1:hint */
+                const struct lys_module *m1 = ly_ctx_get_module_implemented(ctx, "rtx1");
+                struct lyd_node *root, *e;
+
+                LY_LIST_FOR(t, root) {
+                    LYD_TREE_DFS_BEGIN(root, e) {
+                        if (m1 && e->schema && (e->schema->nodetype & LYD_NODE_TERM) && (e->flags & LYD_DEFAULT)) {
+                            lyd_new_meta(ctx, e, m1, "hint", "dm", 0, NULL);
+                        }
+                        LYD_TREE_DFS_END(root, e);
+                    }
+                }
             }
             if (bad) {
                 vp_reply(id, "err Parse");
